@@ -388,9 +388,11 @@ class C20Common(Harness):
 
     def instances(self, tier):
         yield "ascii-hbar", dict(kind="ascii")
+        yield "ascii-hbar-values", dict(kind="ascii", values=True)
         for k in ("bar", "line", "scatter"):
             for density in (False, True):
                 yield f"plotly-{k}-d{int(density)}", dict(kind="plotly", plot=k, density=density)
+                yield f"plotly-{k}-d{int(density)}-cumulative", dict(kind="plotly", plot=k, density=density, cumulative=True)
         yield "plotly-map", dict(kind="plotly", plot="map", density=False)
         yield "plotly-bar-2d", dict(kind="plotly", plot="bar", density=False, wrongdim=True)
         for bad in ("backend", "kind", "kind_dim"):
@@ -404,6 +406,9 @@ class C20Common(Harness):
         x = {"f": declare_cells(cx, "f", [2], "int"), "q": declare_cells(cx, "q", [2], "int"), "e": declare_edges(cx, "e", 2)}
         if cx.sym:
             cx.assume(zsum(cx.t(i) for i in x["f"]) > 0)
+        if cx.sym and p["kind"] == "ascii":
+            # bar lengths are round(8 f / total): a nonlinear integer query per feasible length - contents up to 9 keep it decidable in seconds
+            cx.assume(*[cx.t(i) <= 9 for i in x["f"]])
         if p["kind"] == "ticks":
             x["lo"], x["hi"], x["k"] = cx.pyfloat("lo"), cx.pyfloat("hi"), cx.pyint("k", 1, 4)
             if cx.sym:
@@ -423,7 +428,7 @@ class C20Common(Harness):
             old = asc.__dict__.get("print")
             asc.__dict__["print"] = lambda *a, **kw: lines.append(a)
             try:
-                r = E.attempt(asc.hbar, h, width=8)
+                r = E.attempt(asc.hbar, h, width=8, show_values=True) if p.get("values") else E.attempt(asc.hbar, h, width=8)
             finally:
                 if old is None:
                     asc.__dict__.pop("print", None)
@@ -431,6 +436,7 @@ class C20Common(Harness):
                     asc.__dict__["print"] = old
             obs["op"] = {"raised": r} if isinstance(r, Raised) else "ok"
             obs["lines"] = [len(a[0]) if a and isinstance(a[0], str) and set(a[0]) <= {"#"} else -1 for a in lines]
+            obs["printed_values"] = [a[1] if len(a) > 1 else None for a in lines]
         elif k == "plotly":
             pl = E.mod("physt.plotting.plotly")
             if p.get("wrongdim") or p["plot"] == "map":
@@ -440,6 +446,8 @@ class C20Common(Harness):
             else:
                 target = h
             kw = {} if p["plot"] == "map" else {"density": p["density"]}
+            if p.get("cumulative"):
+                kw["cumulative"] = True
             r = E.attempt(getattr(pl, p["plot"]), target, **kw)
             if isinstance(r, Raised):
                 obs["op"] = {"raised": r}
@@ -502,6 +510,10 @@ class C20Common(Harness):
                     n = obs["lines"][j]
                     # n = round(8 f_j / T) (half to even): |8 f_j / T - n| <= 1/2
                     yield f"hashes[{j}]", z3.And(2 * (8 * f[j] - n * T) <= T, 2 * (n * T - 8 * f[j]) <= T)
+                if p.get("values"):
+                    yield "printed_values_are_frequencies", z3.And([cx.eq(obs["printed_values"][j], f[j]) for j in range(2)])
+                else:
+                    yield "no_values_printed", obs["printed_values"] == [None, None]
             return
         if k == "plotly":
             tr = obs["trace"]
@@ -512,6 +524,9 @@ class C20Common(Harness):
                 return
             wdt = [e[1] - e[0], e[2] - e[1]]
             ref = [z3.ToReal(f[j]) / wdt[j] for j in range(2)] if p["density"] else f
+            if p.get("cumulative"):
+                T = z3.ToReal(f[0] + f[1])
+                ref = [z3.ToReal(f[0]) / T, z3.RealVal(1)] if p["density"] else [f[0], f[0] + f[1]]
             yield "one_trace", tr["n_traces"] == 1 and tr["type"] == ("Bar" if p["plot"] == "bar" else "Scatter")
             yield "trace_x_centres", z3.And([cx.eq(tr["x"][j], (e[j] + e[j + 1]) / 2) for j in range(2)])
             yield "trace_y_values", z3.And([cx.eq(tr["y"][j], ref[j]) for j in range(2)])
